@@ -233,14 +233,15 @@ Inductive op :=
 | OAppend (mb : Z) (fl : list str)
 | OExpunge (ro : bool) (mb : Z).
 
-(** [ro]: state.ReadOnly, set by EXAMINE: NO [READ-ONLY] / CLOSE without expunge *)
+(** [ro]: state.ReadOnly, set by EXAMINE: NO [READ-ONLY] / CLOSE without expunge;
+    a named flag that is not an RFC 3501 flag: BAD Invalid flag, nothing changes *)
 Definition step (e : env) (s : st) (o : op) : st :=
   match o with
-  | OStore ro _ mb q item new => if ro then s else store_seq e s mb q item new
-  | OUidStore ro _ mb q item new => if ro then s else store_uid e s mb q item new
+  | OStore ro _ mb q item new => if ro || negb (flags_valid new) then s else store_seq e s mb q item new
+  | OUidStore ro _ mb q item new => if ro || negb (flags_valid new) then s else store_uid e s mb q item new
   | OUidCopy mb q dest => copy_uid s mb q dest
   | OCopy mb q dest => copy_seq s mb q dest
-  | OAppend mb fl => append s mb fl
+  | OAppend mb fl => if flags_valid fl then append s mb fl else s     (* BAD Invalid flag *)
   | OExpunge ro mb => if ro then s else with_links s (expunge (links s) mb)
   end.
 
